@@ -158,7 +158,10 @@ def sequences(t, sd):
     # implicit products form a single factor
     im = [('im', [('n', 2), V(0)]), ('im', [('n', 2), ('p', [V(0), '+', V(1)])]), ('im', [('p', [V(0)]), ('p', [V(1)]), V(2)]),
           ('im', [('n', 3), ('p', [V(0), '-', V(1)]), V(2)]), ('im', [('p', [V(0), '+', ('n', 1)]), ('p', [V(1), '-', ('n', 1)])]),
-          ('im', [('n', 0.5), V(1)]), ('im', [('n', 2), ('p', [V(0)]), ])]
+          ('im', [('n', 0.5), V(1)]), ('im', [('n', 2), ('p', [V(0)]), ]),
+          # four and five factors: the grammar's repetition is unbounded
+          ('im', [('n', 2), ('p', [V(0)]), ('p', [V(1)]), V(2)]), ('im', [('p', [V(0)]), ('p', [V(1)]), ('p', [V(2)]), ('p', [V(4)])]),
+          ('im', [('n', 3), ('p', [V(0), '+', V(1)]), ('p', [V(2)]), ('p', [V(4), '-', ('n', 1)]), V(1)])]
     for f in im:
         for o in ops:
             seqs.append([V(3), o, f])
